@@ -114,8 +114,14 @@ def gen_expression(rng):
         return Upper('a').desc()
     if r < 0.8:
         return F('a') + rng.choice([1, Value(2), F('b')])
-    if r < 0.9:
+    if r < 0.88:
         return F('a').desc()
+    if r < 0.95:
+        # expressions passed as keyword arguments of other expressions
+        from django.db.models import Case, When
+        return Case(When(a__gt=rng.choice([0, 1]), then=F('b')),
+                    When(b=rng.choice(['x', "y'"]), then=Value(2)),
+                    default=rng.choice([Value(0), F('a')]))
     return Value(rng.choice([1, 'x']))
 
 
